@@ -246,6 +246,33 @@ def oracle(ck, tier, deep):
                 np.abs(got[fin] - ref[fin]).max(initial=0.0) > 1e-9 * max(1.0, np.abs(ref[fin]).max(initial=0.0)):
             ck.violation(sig, rep, f"the same pixels stored column-major ({layout}) give different coefficients "
                                    f"(max difference {np.abs(got[fin] - ref[fin]).max(initial=0.0):.3g})")
+    # a uniform image is c0 = const at every radius that has any pixel — also where the arcs are cut by the frame: non-square
+    # frames with the origin in a corner (one quadrant, no folding), every rmax keyword and explicit radii between the shorter and
+    # the longer side, every method (the normalisation of 'remap' must count only samples inside the frame)
+    for _ in range(16 if not deep else 120):
+        h, w = (int(v) for v in rng.choice([12, 17, 25, 30, 41, 60], size=2, replace=False))
+        cval = float(rng.uniform(0.5, 5))
+        im = np.full((h, w), cval)
+        corner = ["ul", "ur", "ll", "lr"][int(rng.integers(0, 4))]
+        lo, hi = min(h, w) - 1, max(h, w) - 1
+        for rmax in ("MIN", "HOR", "VER", "MAX", "all", int(rng.integers(lo + 1, hi + 1)), lo, hi):
+            for method in ("nearest", "linear", "remap"):
+                ck.count(("S.uniform", corner, str(rmax) if isinstance(rmax, str) else "int", method, h > w), suite="S.recover")
+                rep = dict(shape=[h, w], origin=corner, rmax=rmax, method=method, value=cval)
+                try:
+                    res = quiet(quiet(vmi.Distributions, origin=corner, rmax=rmax, order=0, method=method).image, im)
+                    c0 = res.cos()[0]
+                except Exception as e:
+                    ck.violation(dict(site="Distributions", clause="exception"), rep, f"{type(e).__name__}: {e}")
+                    continue
+                valid = np.asarray(res.valid, bool) if hasattr(res, "valid") else np.ones(len(c0), bool)
+                rr = np.arange(len(c0))
+                sel = valid & (rr >= 1) & (rr <= np.hypot(h - 1, w - 1) - 2)
+                bad = sel & ~(np.abs(c0 - cval) <= (1e-9 if method != "remap" else 1e-6) * cval)
+                if bad.any():
+                    k = int(np.argmax(bad))
+                    ck.violation(dict(site="Distributions", clause="uniform-image", method=method), dict(rep, r=k, c0=float(c0[k])),
+                                 f"uniform image {cval:.4g} on a {h}x{w} frame, origin {corner}, rmax={rmax}, {method}: c0({k}) = {c0[k]:.6g} (valid radius)")
     # raw camera frames: an image stored as uint8 / uint16 / int32 is analysed as its float64 copy
     for _ in range(20 if not deep else 200):
         h, w = (int(v) for v in rng.integers(15, 40, size=2))
